@@ -80,9 +80,49 @@ Definition e_enc2 (v : val) : val :=
   | None => verr
   end.
 
+(* concurrent connections: [conns; picks], conn = [variant 0=v1 1=v2 2=auto; data; sched] *)
+Definition conn_of (v : val) : option (conn * N) :=
+  match v with
+  | VL [VN variant; VB data; VL sched] =>
+      let s := mk_sock data (map get_n sched) in
+      let p := match variant with
+               | 0 => p_process_v1 P6 N6 []
+               | 1 => p_process_v2 N6 []
+               | _ => p_process_auto P6 N6
+               end in
+      Some ((p, s), N.of_nat (List.length data))
+  | _ => None
+  end.
+Fixpoint conns_of (vs : list val) : list (conn * N) :=
+  match vs with
+  | [] => []
+  | v :: vs' => match conn_of v with Some c => c :: conns_of vs' | None => conns_of vs' end
+  end.
+Fixpoint run_conns_count (picks : list nat) (cs : list conn) (wasted : N) : list conn * N :=
+  match picks with
+  | [] => (cs, wasted)
+  | i :: picks' =>
+      let w := match nth_error cs i with Some (PRecv _ _, _) => 0 | _ => 1 end in
+      run_conns_count picks' (step_nth i cs) (wasted + w)
+  end.
+Definition vconn (c : conn) (len : N) : val :=
+  let used := len - N.of_nat (List.length (s_data (snd c))) in
+  match fst c with
+  | PDone r => VL [VN 1; vres r used]
+  | PRecv n _ => VL [VN 0; VN (N.of_nat n); VN used]
+  end.
+Definition e_conc (v : val) : val :=
+  match v with
+  | VL [VL conns; VL picks] =>
+      let cl := conns_of conns in
+      let '(cs', wasted) := run_conns_count (map (fun p => N.to_nat (get_n p)) picks) (map fst cl) 0 in
+      VL [VL (map (fun cw => vconn (fst cw) (snd cw)) (combine cs' (map snd cl))); VN wasted]
+  | _ => verr
+  end.
+
 Definition entries : list entry :=
   [("c18_v1"%string, e_v1); ("c18_v2"%string, e_v2); ("c18_auto"%string, e_auto);
    ("c18_line"%string, e_line);
    ("c18_pton4"%string, e_pton4); ("c18_pton6"%string, e_pton6);
    ("c18_ntop4"%string, e_ntop4); ("c18_ntop6"%string, e_ntop6);
-   ("c18_enc1"%string, e_enc1); ("c18_enc2"%string, e_enc2)].
+   ("c18_enc1"%string, e_enc1); ("c18_enc2"%string, e_enc2); ("c18_conc"%string, e_conc)].
